@@ -294,6 +294,18 @@ P_PrinCapabilities(b) ==
       Nm("pr_type_mask/wr_ex", Fl(b, 4, 1, 1)), Nm("pr_type_mask/ex_ac_ar", Fl(b, 5, 0, 1)) }
 Ok_PrinCapabilities(b) == Len(b) >= 8 /\ Nn(b, 0, 2) = 8
 
+\* iSCSI TransportID (SPC-4 tables 509 / 510): ADDITIONAL LENGTH at 2-3, then the NUL-terminated, NUL-padded
+\* name; TPID FORMAT 01b appends the separator ",i,0x" and the initiator session id to the name
+RECURSIVE UpToNul(_)
+UpToNul(d) == IF d = <<>> \/ d[1] = 0 THEN <<>> ELSE <<d[1]>> \o UpToNul(Tail(d))
+IsidSep == <<44, 105, 44, 48, 120>>
+SepAt(t) == LET c == {i \in 1..Len(t) : i + 4 <= Len(t) /\ SubSeq(t, i, i + 4) = IsidSep} IN
+            IF c = {} THEN 0 ELSE CHOOSE i \in c : \A j \in c : i <= j
+IscsiId(p, d) ==
+    LET txt == UpToNul(Bs(d, 4, Nn(d, 2, 2)))  k == SepAt(txt) IN
+    IF NatOfNum(Fl(d, 0, 7, 2)) = 1 /\ k > 0
+    THEN { Bl(p \o "/iscsi_name", SubSeq(txt, 1, k - 1)), Bl(p \o "/iscsi_initiator_session_id", SubSeq(txt, k + 5, Len(txt))) }
+    ELSE { Bl(p \o "/iscsi_name", txt) }
 \* TransportID (SPC-4 7.6.4): format 0.7:2, protocol 0.3:4; by protocol
 TransportId(p, d) ==
     LET proto == NatOfNum(Fl(d, 0, 3, 4))  fmt == NatOfNum(Fl(d, 0, 7, 2)) IN
@@ -302,6 +314,7 @@ TransportId(p, d) ==
        [] proto = 3 -> { Bl(p \o "/eui64_name", Bs(d, 8, 8)) }
        [] proto = 4 -> { Bl(p \o "/initiator_port_identifier", Bs(d, 8, 16)) }
        [] proto = 6 -> { Bl(p \o "/sas_address", Bs(d, 4, 8)) }
+       [] proto = 5 -> IscsiId(p, d)
        [] OTHER -> {})
 \* size of a TransportID starting at d[0]: iSCSI (protocol 5) ADDITIONAL LENGTH bytes 2-3 (n-3), others 24
 TidSize(d) == IF NatOfNum(Fl(d, 0, 3, 4)) = 5 THEN Nn(d, 2, 2) + 4 ELSE 24
@@ -424,8 +437,6 @@ P_ModeSelect10(b) == { Nm("medium_type", Fl(b, 2, 7, 8)), Nm("device_specific_pa
 
 \* iSCSI TransportID (SPC-4 table 509/510): ADDITIONAL LENGTH bytes 2-3 (n-3), name from byte 4,
 \* NUL-terminated and NUL-padded to a multiple of 4; format 01b appends ",i,0x" and the ISID
-RECURSIVE UpToNul(_)
-UpToNul(d) == IF d = <<>> \/ d[1] = 0 THEN <<>> ELSE <<d[1]>> \o UpToNul(Tail(d))
 TransportIdOut(p, d) ==
     TransportId(p, d) \cup
     (IF NatOfNum(Fl(d, 0, 3, 4)) = 5 THEN { Bl(p \o "/iscsi_text", UpToNul(Bs(d, 4, Nn(d, 2, 2)))) } ELSE {})
